@@ -2,6 +2,7 @@ package gbnprop
 
 import (
 	"fmt"
+	"strings"
 	"sync"
 	"testing"
 	"time"
@@ -63,6 +64,8 @@ func genC18(t *rapid.T) *raceCase {
 	sc.Client, sc.Server = mk("client"), mk("server")
 	sc.LatC2SMs = rapid.SampledFrom([]int{0, p / 2, p}).Draw(t, "lat_c2s")
 	sc.LatS2CMs = rapid.SampledFrom([]int{0, p / 2, p}).Draw(t, "lat_s2c")
+	// with chunking, messages are reassembled in Recv from several packets
+	sc.MaxChunk = rapid.SampledFrom([]int{0, 0, 3, 8}).Draw(t, "chunk")
 	sc.C2S = genMsgs(t, "c2s", 25, 32, []int{0, 0, p, 2 * p, 3 * p})
 	sc.S2C = genMsgs(t, "s2c", 25, 32, []int{0, 0, p, 2 * p, 3 * p})
 	delays := []int{0, p, 2 * p}
@@ -74,7 +77,7 @@ func genC18(t *rapid.T) *raceCase {
 		return extraOp{
 			AtMs: p * rapid.IntRange(0, 30).Draw(t, "at") / rapid.SampledFrom([]int{1, 1, 2}).Draw(t, "div"),
 			Who:  rapid.SampledFrom([]string{"client", "server"}).Draw(t, "who"),
-			Op:   rapid.SampledFrom([]string{"send", "send", "recv", "set_send_to", "set_recv_to", "close"}).Draw(t, "op"),
+			Op:   rapid.SampledFrom([]string{"send", "send", "recv", "recv", "set_send_to", "set_recv_to", "close"}).Draw(t, "op"),
 			Arg:  rapid.SampledFrom([]int{1, p, 10 * p}).Draw(t, "arg"),
 		}
 	})
@@ -112,8 +115,14 @@ func runC18(t *testing.T, c *raceCase) (violation string, coincide bool) {
 				case "recv":
 					// a second reader competes with the harness receiver; C18
 					// only asks for race freedom, not for delivery here
+					// (several calls, so that it is in Recv while chunks of a
+					// split message arrive for the other reader)
 					conn.SetRecvTimeout(ms(op.Arg))
-					_, _ = conn.Recv()
+					for i := 0; i < 4; i++ {
+						if _, err := conn.Recv(); err != nil && !strings.Contains(err.Error(), "timed out") && !strings.Contains(err.Error(), "timeout") {
+							break
+						}
+					}
 				case "set_send_to":
 					conn.SetSendTimeout(ms(op.Arg * 100))
 				case "set_recv_to":
